@@ -71,7 +71,7 @@ TypeTable == [
    tup16 |-> DTuple(<<U8, U8, U8, U8, U8, U8, U8, U8, U8, U8, U8, U8, U8, U8, U8, U8>>),
    tup5 |-> DTuple(<<U8, I16, U8, I16, U8>>), tup6 |-> DTuple(<<U8, I16, U8, I16, U8, I16>>), tup7 |-> DTuple(<<U8, I16, U8, I16, U8, I16, U8>>), tup8 |-> DTuple(<<U8, I16, U8, I16, U8, I16, U8, I16>>), tup9 |-> DTuple(<<U8, I16, U8, I16, U8, I16, U8, I16, U8>>), tup10 |-> DTuple(<<U8, I16, U8, I16, U8, I16, U8, I16, U8, I16>>), tup11 |-> DTuple(<<U8, I16, U8, I16, U8, I16, U8, I16, U8, I16, U8>>), tup12 |-> DTuple(<<U8, I16, U8, I16, U8, I16, U8, I16, U8, I16, U8, I16>>), tup13 |-> DTuple(<<U8, I16, U8, I16, U8, I16, U8, I16, U8, I16, U8, I16, U8>>), tup14 |-> DTuple(<<U8, I16, U8, I16, U8, I16, U8, I16, U8, I16, U8, I16, U8, I16>>), tup15 |-> DTuple(<<U8, I16, U8, I16, U8, I16, U8, I16, U8, I16, U8, I16, U8, I16, U8>>),
    cowsliceu16 |-> DSeq(U16), arr2tup |-> DArr(DTuple(<<U8, DBool>>), 2), vecarr |-> DSeq(DArr(U8, 3)), optbox |-> DOpt(I32), boxvec |-> DSeq(DText),
-   arr0u8 |-> DArr(U8, 0), arr1string |-> DArr(DText, 1), arr3i32 |-> DArr(I32, 3), arr16u8 |-> DArr(U8, 16), arr32u8 |-> DArr(U8, 32),
+   arr0u8 |-> DArr(U8, 0), arr1string |-> DArr(DText, 1), arr3i32 |-> DArr(I32, 3), arr23u16 |-> DArr(U16, 23), arr24bool |-> DArr(DBool, 24), arr25i8 |-> DArr(I8, 25), arr16u8 |-> DArr(U8, 16), arr32u8 |-> DArr(U8, 32),
    vecu8 |-> DSeq(U8), vecstring |-> DSeq(DText), vecvecu16 |-> DSeq(DSeq(U16)), vecoptbool |-> DSeq(DOpt(DBool)), vecdequei32 |-> DSeq(I32), linkedlistu64 |-> DSeq(U64),
    btreesetu16 |-> DSet(U16), binaryheapu8 |-> DBag(U8), hashsetstring |-> DBag(DText), hashseti32 |-> DBag(I32),
    btreemapu8string |-> DMap(U8, DText), btreemapstringvecu8 |-> DMap(DText, DSeq(U8)), hashmapu16bool |-> DHMap(U16, DBool), hashmapstringi64 |-> DHMap(DText, I64),
